@@ -135,6 +135,10 @@ def shadow(modname: str, rebind: dict | None = None, cuts: dict | None = None, c
         tree = _FmtRewrite().visit(tree)
         ast.fix_missing_locations(tree)
         dropped.append("every `\"literal\" % args` is routed through __pyvc__.fmt (identical to % on concrete args)")
+    if rebind and rebind.get("__join__"):
+        tree = _JoinRewrite().visit(tree)
+        ast.fix_missing_locations(tree)
+        dropped.append("every `b\"literal\".join(X)` is routed through __pyvc__.bjoin (the same join on real bytes)")
     mod = types.ModuleType(modname)
     mod.__file__ = path
     if os.path.basename(path) == "__init__.py":
@@ -187,6 +191,21 @@ class _GenexprRewrite(ast.NodeTransformer):
                 return ast.copy_location(ast.Call(
                     func=ast.Attribute(value=ast.Name(id="__pyvc__", ctx=ast.Load()), attr="reduce_gen", ctx=ast.Load()),
                     args=[ast.Constant(value=node.func.id), g.iter, lam(node.args[0].elt), lam(cond)], keywords=[]), node)
+        return node
+
+
+class _JoinRewrite(ast.NodeTransformer):
+    """`b"sep".join(X)` -> `__pyvc__.bjoin(b"sep", X)`: a method of a bytes literal cannot be
+    rebound, and the real join refuses byte-string models."""
+
+    def visit_Call(self, node):
+        self.generic_visit(node)
+        f = node.func
+        if (isinstance(f, ast.Attribute) and f.attr == "join" and isinstance(f.value, ast.Constant) and isinstance(f.value.value, bytes)
+                and len(node.args) == 1 and not node.keywords):
+            return ast.copy_location(ast.Call(
+                func=ast.Attribute(value=ast.Name(id="__pyvc__", ctx=ast.Load()), attr="bjoin", ctx=ast.Load()),
+                args=[f.value, node.args[0]], keywords=[]), node)
         return node
 
 
